@@ -1311,7 +1311,92 @@ class FuncAnalysis:
             self._block(s.orelse)
         return None
 
+    def _expand_contextmanager(self, s):
+        """`with helper(args): BODY` where helper is a generator-based @contextmanager of the same module that the
+        checker has never heard of, with a single bare `yield`: the statements of the helper with BODY in place of the
+        yield (parameters bound first, the helper's locals renamed apart).  None when the pattern does not apply."""
+        item = s.items[0]
+        call = item.context_expr
+        if item.optional_vars is not None or not isinstance(call, ast.Call) or not isinstance(call.func, ast.Name):
+            return None
+        name = call.func.id
+        if name in _known_names() or name in self.env or name in getattr(self, '_locals', ()):
+            return None
+        q = self.module.name + '.' + name
+        fi = self.repo.funcs.get(q)
+        if fi is None or fi.cls is not None or fi.parent is not None or fi.module is not self.module:
+            return None
+        decs = fi.node.decorator_list
+        if len(decs) != 1 or not ((isinstance(decs[0], ast.Name) and decs[0].id == 'contextmanager') or
+                                  (isinstance(decs[0], ast.Attribute) and decs[0].attr == 'contextmanager')):
+            return None
+        a = fi.node.args
+        if a.vararg or a.kwarg or a.kwonlyargs or a.defaults or any(isinstance(x, ast.Starred) for x in call.args) \
+                or any(k.arg is None for k in call.keywords):
+            return None
+        params = [x.arg for x in list(a.posonlyargs) + list(a.args)]
+        bound = dict(zip(params, call.args))
+        for k in call.keywords:
+            if k.arg not in params or k.arg in bound:
+                return None
+            bound[k.arg] = k.value
+        if len(call.args) > len(params) or set(bound) != set(params):
+            return None
+        yields = [n for n in _walk_no_defs(fi.node.body) if isinstance(n, (ast.Yield, ast.YieldFrom))]
+        if len(yields) != 1 or not isinstance(yields[0], ast.Yield) or yields[0].value is not None:
+            return None
+        depth = getattr(self, '_cm_depth', 0)
+        if depth >= 2:
+            return None
+        local = set(params) | _assigned_names(fi.node)
+        pre = f'cm{depth}_'
+        inner = [ast.With(items=s.items[1:], body=s.body, type_comment=None)] if len(s.items) > 1 else list(s.body)
+        found = []
+
+        class Rw(ast.NodeTransformer):
+            def visit_Name(self, n):
+                if n.id in local:
+                    return ast.copy_location(ast.Name(id=pre + n.id, ctx=n.ctx), n)
+                return n
+
+            def visit_Expr(self, n):
+                if isinstance(n.value, ast.Yield):
+                    found.append(n)
+                    return inner
+                return self.generic_visit(n)
+
+            def visit_FunctionDef(self, n):
+                return n
+
+            visit_Lambda = visit_AsyncFunctionDef = visit_FunctionDef
+        import copy
+        body = [Rw().visit(copy.deepcopy(st)) for st in fi.node.body
+                if not (isinstance(st, ast.Expr) and isinstance(st.value, ast.Constant) and isinstance(st.value.value, str))]
+        if len(found) != 1:
+            return None         # the yield is not a statement of its own
+        flat = []
+        for b in body:
+            flat.extend(b if isinstance(b, list) else [b])
+        binds = [ast.Assign(targets=[ast.Name(id=pre + p, ctx=ast.Store())], value=bound[p], type_comment=None) for p in params]
+        out = binds + flat
+        for st in out:
+            ast.copy_location(st, s)
+            ast.fix_missing_locations(st)
+        return out
+
     def _s_With(self, s):
+        exp = self._expand_contextmanager(s)
+        if exp is not None:
+            self._cm_depth = getattr(self, '_cm_depth', 0) + 1
+            try:
+                st = self._block(exp)
+            finally:
+                self._cm_depth -= 1
+            res = list(self._last_residual) if st is None else []
+            if res:
+                self._guards.extend(res)
+                return None, len(res)
+            return st
         n = 0
         for item in s.items:
             cm = self.ev(item.context_expr)
